@@ -83,16 +83,89 @@ def _raw(draw):
           "jit": draw(st.booleans()), "vals": vals}
 
 
+@st.composite
+def _optstate(draw):
+  nleaves = draw(st.sampled_from([1, 2]))
+  shapes = [[draw(st.sampled_from([2, 3, 4, 5])) for _ in range(draw(st.sampled_from([2, 2, 3])))] for _ in range(nleaves)]
+  return {"mode": "optstate", "shapes": shapes,
+          "interval": draw(st.sampled_from([1, 2, 3])), "sinterval": draw(st.sampled_from([1, 2])),
+          "block": draw(st.sampled_from([2, 3, 128])), "beta1": draw(st.sampled_from([0.0, 0.9])),
+          "graft": draw(st.sampled_from(["SGD", "RMSPROP", "ADAGRAD"])),
+          "reuse": draw(st.booleans()),
+          "steps": draw(st.lists(st.fixed_dictionaries({
+              "kind": st.sampled_from(["dense", "dense", "sparse", "zero", "lowrank"]),
+              "exp": st.sampled_from([0, 0, -3, 3]), "seed": st.integers(0, 2**16)}), min_size=2, max_size=7))}
+
+
 def shards(tier):
   n = 1300 if tier == "quick" else 40000
   return [
-      {"name": "structured", "examples": n * 12, "workers": 12},
+      {"name": "structured", "examples": n * 10, "workers": 10},
       {"name": "raw", "examples": n * 4, "workers": 4},
+      {"name": "optstate", "examples": 2 * (22 if tier == "quick" else 500), "workers": 2},
   ]
 
 
 def strategy(shard):
+  if shard["name"] == "optstate":
+    return _optstate()
   return _structured() if shard["name"] == "structured" else _raw()
+
+
+def check_optstate(case):
+  """Quantised state inside the optimizer (pmap + memory reduction): no wrap, no drift of carried state."""
+  import jax
+  import jax.numpy as jnp
+  from precondition import quantization_utils as qu
+  from vp import dsh
+  shapes = [tuple(s) for s in case["shapes"]]
+  names = [f"p{i}" for i in range(len(shapes))]
+  o = {"block_size": case["block"], "beta1": case["beta1"], "start_preconditioning_step": 1,
+       "preconditioning_compute_steps": case["interval"], "statistics_compute_steps": case["sinterval"],
+       "graft_type": case["graft"], "best_effort_memory_usage_reduction": True, "matrix_epsilon": 1e-3,
+       "reuse_preconditioner": case["reuse"], "best_effort_shape_interpretation": False}
+  opt = dsh.make_opt(o, "pmap")
+  params = dsh.params_from(shapes)
+  p1 = jax.tree.map(lambda x: x[None], params)
+  state = jax.pmap(opt.init, axis_name="batch")(p1)
+  upd = jax.pmap(opt.update, axis_name="batch")
+  hist = dsh.history_np(case["steps"], shapes)
+
+  def qleaves(st_):
+    out = []
+    for n in names:
+      ps = jax.tree.map(lambda x: x[0], st_.stats[n])
+      for kind, lst in (("statistics", ps.statistics), ("preconditioners", ps.preconditioners),
+                        ("momentum", [ps.momentum]), ("diagonal_momentum", [ps.diagonal_momentum])):
+        for j, q in enumerate(lst):
+          if isinstance(q, qu.QuantizedValue) and np.asarray(q.quantized).dtype in (np.int8, np.int16):
+            out.append((f"{n}.{kind}[{j}]", kind, q))
+    return out
+
+  prev = qleaves(state)
+  nq = len(prev)
+  for t, gs in enumerate(hist):
+    g = jax.tree.map(lambda x: x[None], dsh.to_tree(gs))
+    _, state = upd(g, state, p1)
+    cur = qleaves(state)
+    require(len(cur) == nq, "optstate-quantised-leaf-count", f"{len(cur)} vs {nq}")
+    for (lab, kind, q0), (_, _, q1) in zip(prev, cur):
+      qi = np.asarray(q1.quantized).astype(np.int64)
+      nb = 127 if qi.dtype == np.int64 and np.asarray(q1.quantized).dtype == np.int8 else 32767
+      require(int(qi.min(initial=0)) >= -nb and int(qi.max(initial=0)) <= nb, "optstate-no-wrap",
+              f"step {t} {lab}: stored range [{qi.min()},{qi.max()}]")
+      f1 = np.asarray(q1.to_float())
+      require(bool(np.all(np.isfinite(f1))), "optstate-finite", f"step {t} {lab}")
+      carried = (kind == "preconditioners" and t % case["interval"] != 0) or \
+                (kind == "statistics" and t % case["sinterval"] != 0)
+      if carried:
+        require(f1.tobytes() == np.asarray(q0.to_float()).tobytes(), "optstate-carried-state-does-not-drift",
+                f"step {t} {lab}: dequantised value changed although this state was only carried")
+      # (Re-quantisation idempotence is only asserted for direct calls: inside a
+      # compiled update XLA may evaluate the statistic twice with different
+      # rounding, so the payload's diagonal is x - x' = 1 ulp instead of 0.)
+    prev = cur
+  return Result(len(hist) > case["interval"] and nq > 0, ["optstate", f"interval={case['interval']}"], sub=len(hist))
 
 
 # ---------------------------------------------------------------- building
@@ -182,6 +255,8 @@ def _requant(deq, dtype, diag):
 
 # ---------------------------------------------------------------- check
 def check(case):
+  if case["mode"] == "optstate":
+    return check_optstate(case)
   x = build(case)
   dtype, diag = case["dtype"], case["diag"]
   quant, dg, bs, deq = _roundtrip(x, dtype, diag, case["jit"])
